@@ -2,6 +2,7 @@
 AeroPoint group, executed symbolically through OpenMDAO's real connection graph)."""
 import numpy as np
 from ..runner import job
+from .. import core
 from .. import gsx, term as S
 from .c01_components import cls, two_surfaces, T, MESH_RANGES
 from ..surfaces import surface
@@ -125,13 +126,19 @@ def viscous_length_scaling(env, k_lam, symmetry):
            h.compute(ins2)["CDv"], h.compute(ins)["CDv"])
 
 
-@job("c06.translation", ("C06",), cfgs=[dict(CF[0], rotational=False), dict(CF[0], rotational=True), dict(CF[2], rotational=True),
+@job("c06.translation", ("C06",), cfgs=[dict(nx=2, ny=3, symmetry=False, nsurf=1, yshift=3.0, rotational=False, dict_shift=-6.0),   # a full-span surface moved across the centre line (the model is rebuilt from the moved mesh)
+                                         dict(CF[0], rotational=False), dict(CF[0], rotational=True), dict(CF[2], rotational=True),
                                          dict(CF[1], rotational=True, _tier=T)], ranges=RG, cost=8)
-def translation(env, rotational, **cfg):
+def translation(env, rotational, dict_shift=None, **cfg):
     """translating all surfaces and the moment reference point together changes nothing (x, z translations when a
-    symmetry plane is present)"""
+    symmetry plane is present); dict_shift: the translated model is built anew from surface dictionaries whose meshes are
+    moved by that much in y (the code reads the option meshes too), the symbolic inputs move by the same amount"""
     surfs = surfaces_for(cfg)
     g = gsx.GroupSX(env, gsx.aero_model(surfs, rotational=rotational))
+    g_moved = g
+    if dict_shift is not None:
+        surfs2 = surfaces_for(dict(cfg, yshift=cfg.get("yshift", 0.0) + dict_shift))
+        g_moved = gsx.GroupSX(env, gsx.aero_model(surfs2, rotational=rotational), key="moved")
     if env.sym:
         env.use_helpers("eval_mtx")
     given = base_inputs(env, g, surfs)
@@ -140,22 +147,24 @@ def translation(env, rotational, **cfg):
     t = env.var("t", (3,))
     if any(s["symmetry"] for s in surfs):
         t = t * np.array([1, 0, 1])
+    if dict_shift is not None:
+        t = t * np.array([1, 0, 1]) + np.array([0, dict_shift, 0])
     g2 = dict(given)
     for s in surfs:
         nm = "%s_def_mesh" % s["name"]
         g2[nm] = given[nm] + t.reshape(1, 1, 3)
     g2["cg"] = given["cg"] + t
     if env.sym:
-        v2 = g.run(g2, hints={"solve_matrix": solve_hint(solves1, 1)})
-        check_solve_relation(env, "C06", "translation", g, solves1, 1)
+        v2 = g_moved.run(g2, hints={"solve_matrix": solve_hint(solves1, 1)})
+        check_solve_relation(env, "C06", "translation", g_moved, solves1, 1)
     else:
-        v2 = g.run(g2)
+        v2 = g_moved.run(g2)
     for s in surfs:
         n = s["name"]
         env.eq("C06", "sectional forces unchanged by a common translation of surfaces and reference point [%s]" % n,
-               g.get(v2, "ap.aero_states.%s_sec_forces" % n), g.get(v1, "ap.aero_states.%s_sec_forces" % n))
+               g_moved.get(v2, "ap.aero_states.%s_sec_forces" % n), g.get(v1, "ap.aero_states.%s_sec_forces" % n))
     for q in ("CL", "CD", "CM"):
-        env.eq("C06", "aircraft %s unchanged by a common translation" % q, g.get(v2, "ap." + q), g.get(v1, "ap." + q))
+        env.eq("C06", "aircraft %s unchanged by a common translation" % q, g_moved.get(v2, "ap." + q), g.get(v1, "ap." + q))
 
 
 @job("c06.length_scaling", ("C06",), cfgs=[dict(nx=2, ny=2, symmetry=True, side="left", nsurf=1),
@@ -167,6 +176,7 @@ def length_scaling(env, **cfg):
     g = gsx.GroupSX(env, gsx.aero_model(surfs))
     given = base_inputs(env, g, surfs)
     env.indicator_branch = 1
+    env.indicator_only = core.kernel_tol_mask          # only the documented |den| <= 1e-10 guard of the kernels is exempt
     v1 = g.run(given)
     solves1 = list(g.solves)
     c = env.var("k", ())
